@@ -208,11 +208,12 @@ func vc14rtCompareLoaded(w *vc14rtWorld, profs []*agd.Profile, devs []*agd.Devic
 
 func TestVerifC14rtRoundTrip(t *testing.T) {
 	st := vstat.New("C14", "profiledb.roundtrip",
-		"rapid-drawn sets of profiles and devices with every field varied independently (all blocking modes incl. custom IP v4/v6/both, access nets/ASNs/domain rules, custom rate limit, pause schedules with time zones, custom rules, rule lists, safe browsing, auth variants, all flags, TTLs, names, human ids, linked and dedicated IPs), stored through filecachepb.Storage into a real file and loaded by a second Storage; compared through accessors and behaviour probes; non-trivial = a case with a custom access manager or rate limiter or schedule or enabled authentication; distinct by the stored specification",
+		"rapid-drawn sets of profiles and devices with every field varied independently (all blocking modes incl. custom IP v4/v6/both, access nets/ASNs/domain rules, custom rate limit, pause schedules with time zones, custom rules, rule lists, safe browsing, auth variants, all flags, TTLs, names, human ids, linked and dedicated IPs), for a drawn subset used first the way the running service uses them (access verdicts, rate limiter, schedule, authentication), then stored through filecachepb.Storage into a real file and loaded by a second Storage; compared through accessors and behaviour probes; non-trivial = a case with a custom access manager or rate limiter or schedule or enabled authentication; distinct by the stored specification",
 		"mode-custom", "custom-ip-v4-only", "custom-ip-v6-only", "custom-ip-both", "mode-nxdomain", "mode-refused", "mode-null",
 		"access-nets", "access-asns", "access-domain-rules", "access-empty", "ratelimit-custom", "ratelimit-behaviour-probe", "ratelimit-global",
 		"schedule-non-utc-zone", "schedule-none", "auth-bcrypt", "auth-allow", "auth-disabled", "auth-doh-only", "custom-rules",
-		"linked-ip-v6", "dedicated-ips", "human-id", "version-mismatch", "deleted-profile")
+		"linked-ip-v6", "dedicated-ips", "human-id", "version-mismatch", "deleted-profile",
+		"used-before-store", "used-before-store-with-domain-rules", "unused-before-store", "device-used-before-store")
 	st.Finish(t)
 	vc14rtNeedZones(t)
 
@@ -244,6 +245,28 @@ func TestVerifC14rtRoundTrip(t *testing.T) {
 		fail := func(f string, a ...any) {
 			t.Helper()
 			t.Fatalf("stored (estimate %d, version %d, sync time %v): %s\n%s", est, version, syncTime, vc14rtDescribe(w), fmt.Sprintf(f, a...))
+		}
+
+		usedP, usedD, useDiffs := vc14rtUse(t, w, profs, devs, pr)
+		if len(useDiffs) > 0 {
+			fail("freshly built objects, used before the store, do not behave as specified:\n  %s", strings.Join(useDiffs, "\n  "))
+		}
+
+		if len(usedP) > 0 {
+			cl["used-before-store"] = true
+			for i, spec := range w.Profs {
+				if usedP[profs[i]] && spec.Access != nil && len(spec.Access.Rules) > 0 {
+					cl["used-before-store-with-domain-rules"] = true
+				}
+			}
+		}
+
+		if len(usedD) > 0 {
+			cl["device-used-before-store"] = true
+		}
+
+		if len(usedP) < len(profs) {
+			cl["unused-before-store"] = true
 		}
 
 		err := filecachepb.New(logger, path, est).Store(ctx, &internal.FileCache{
